@@ -429,6 +429,9 @@ fn test_round(c: &Case, cx: &mut Cx) -> CaseResult {
     let (lo, hi) = (at(k - inc as i128), at(k + inc as i128));
     // Which sides are needed depends on where `end` lies relative to x.
     let verdict = judge(mode, sa, x, end, lo.ok(), hi.ok(), origin);
+    if let (Some(l0), Some(h0)) = (lo.as_ref().ok(), hi.as_ref().ok()) {
+        cx.class_if(end != x && (2 * (end - x).abs() == (*h0 - x).abs() || 2 * (end - x).abs() == (x - *l0).abs()), "round: end point exactly half way to a neighbouring multiple");
+    }
     match verdict {
         Judge::Ok => {}
         Judge::Tie => cx.class("round: exact tie under half-even (either neighbour accepted)"),
@@ -438,7 +441,14 @@ fn test_round(c: &Case, cx: &mut Cx) -> CaseResult {
             // (`Nudge::relative_calendar`: truncated + numer/denom*increment); strictly inside a
             // band of (|end - reference| + 4 windows) * 2^-50 around a decision point either
             // neighbour is accepted. Exact boundaries and exact ties are never tolerated.
-            let band = if u <= 3 && rf.has_reference() && dist != 0 { ((end - origin).abs() + 4 * window) >> 50 } else { 0 };
+            // (the f64 path is taken for smallest >= day with a zoned reference and for
+            // smallest >= week with a civil one; civil day rounding is exact integer arithmetic)
+            let float_path = match &rf {
+                Ref::Zoned(..) => u <= 3,
+                Ref::Civil(_) => u <= 2,
+                _ => false,
+            };
+            let band = if float_path && dist != 0 { ((end - origin).abs() + 4 * window) >> 50 } else { 0 };
             // Temporal's bubbling (jiff's documented model) replaces e.g. `1y 31d` by `1y 1mo`
             // whenever r + 1y 31d has reached r + 1y 1mo; when that month step lands on a clamped
             // day of month (Mar 31 + 1mo = Apr 30) the bubbled result is *earlier* than the
@@ -498,7 +508,7 @@ fn test_round(c: &Case, cx: &mut Cx) -> CaseResult {
                 cx.class("round: time rounded across a day whose length is not a multiple of the increment (Temporal semantics; no verdict)");
             } else if fr[2..].iter().all(|&v| v == 0) && (fr[0] != 0 || fr[1] != 0) && landed_day < ref_day {
                 cx.class("round: bubbled onto a clamped day of month (Temporal semantics; no verdict)");
-            } else if dist.abs() <= band + if band > 0 { 1 } else { 0 } {
+            } else if band > 0 && dist != 0 && dist.abs() <= band + 1 {
                 cx.class("round: inside the stated f64 band of a decision point (either neighbour accepted)");
             } else {
                 cx.soft_fail(
@@ -509,7 +519,7 @@ fn test_round(c: &Case, cx: &mut Cx) -> CaseResult {
         }
     }
     // (d) uniform units: exact answer
-    let uniform = largest_idx(&fa).min(l) >= rf.uniform_from() && (u >= 4 || !rf.has_reference());
+    let uniform = largest_idx(&fa).min(l) >= rf.uniform_from() && (u >= 4 || !rf.has_reference() || (matches!(rf, Ref::Civil(_)) && u == 3));
     if uniform {
         cx.class("round: uniform units, compared exactly");
         let p = parts(&fa);
@@ -1013,9 +1023,9 @@ fn strat_case() -> BoxedStrategy<Case> {
     (
         (prop_oneof![2 => Just(0u8), 2 => Just(1u8), 3 => Just(2u8), 5 => Just(3u8), 2 => Just(4u8)], date, gen::tod_ns(), strat_zone_probe()),
         (moderate_span(), moderate_span(), 0u8..10, prop_oneof![3 => Just(10u8), 5 => 0u8..10], incr, 0u8..9),
-        any::<u8>(),
+        (any::<u8>(), any::<u8>()),
     )
-        .prop_map(|((refk, d, t, probe), (a, b, smallest, largest, incr, mode), tweak)| {
+        .prop_map(|((refk, d, t, probe), (a, b, smallest, largest, incr, mode), (tweak, tie))| {
             // for most cases make the options well-formed: largest not below smallest, and for
             // time units an increment that divides the next unit
             let (mut a, mut b, mut smallest, mut largest) = (a, b, smallest, largest);
@@ -1041,6 +1051,57 @@ fn strat_case() -> BoxedStrategy<Case> {
                 if incr >= limit || limit % incr != 0 {
                     let divs: Vec<i64> = (1..limit).filter(|d| limit % d == 0).collect();
                     incr = divs[(incr as usize) % divs.len()];
+                }
+            }
+            // a quarter of the cases: `a` sits exactly (or, for months and years, plausibly) half
+            // way between two multiples of increment x smallest unit, optionally one nanosecond
+            // off: ties decide the half-* modes and are vanishingly rare otherwise
+            if tie % 4 == 0 && incr > 0 && incr <= 1000 {
+                let u = smallest as usize;
+                for i in (u + 1)..10 {
+                    a.u[i] = 0;
+                }
+                a.u[u] = a.u[u] / incr * incr;
+                let k = (tie / 4) as i64;
+                match u {
+                    0 => {
+                        // half a year: 6 months per year of increment, or half the days
+                        if k % 2 == 0 {
+                            a.u[1] = (incr * 6).min(SPAN_LIMITS[1]);
+                        } else {
+                            a.u[3] = [182, 183][(k / 2 % 2) as usize];
+                            a.u[4] = [12, 0][(k / 2 % 2) as usize];
+                        }
+                    }
+                    1 => {
+                        a.u[3] = [14, 14, 15, 15][(k % 4) as usize];
+                        a.u[4] = [0, 12, 0, 12][(k % 4) as usize];
+                    }
+                    2 => a.u[4] = (incr * 84).min(SPAN_LIMITS[4]),
+                    3 => a.u[4] = (incr * 12).min(SPAN_LIMITS[4]),
+                    4 => a.u[5] = incr * 30,
+                    5 => a.u[6] = incr * 30,
+                    6 => a.u[7] = incr * 500,
+                    7 => a.u[8] = incr * 500,
+                    8 => a.u[9] = incr * 500,
+                    _ => {}
+                }
+                if u < 9 {
+                    a.u[9] = [0, 0, 1, 0][(k / 4 % 4) as usize];
+                    if k / 4 % 4 == 3 && a.u[8] == 0 && u < 8 {
+                        // one nanosecond short of the tie
+                        let j = ((u + 1).max(2)..9).rev().find(|&j| a.u[j] > 0);
+                        if let Some(j) = j {
+                            a.u[j] -= 1;
+                            // borrow: one unit of j = UNIT in ns, minus 1 ns
+                            let unit_ns: i128 = UNIT_NS[j];
+                            let rest = unit_ns - 1;
+                            a.u[6] += (rest / 1_000_000_000) as i64;
+                            a.u[7] += (rest / 1_000_000 % 1000) as i64;
+                            a.u[8] += (rest / 1000 % 1000) as i64;
+                            a.u[9] += (rest % 1000) as i64;
+                        }
+                    }
                 }
             }
             // b is often a near copy of a (equal or nearly equal end points)
@@ -1075,7 +1136,7 @@ pub fn property() -> Property {
         rule: "round: the span is negative, or a calendar unit is smallest or largest, or rounding changed the span, or the options must be refused; total: the count has a fractional part or the unit is a calendar unit; compare: the two spans differ; duration/add: calendar units involved or both operands non-zero",
         assumptions: &[
             "reference + span is computed by the harness's models (walked calendar, RFC 8536/POSIX zone reader, i128): months with day clamping, days on the wall clock with 'compatible' resolution, then exact time",
-            "stated tolerance: for smallest >= day with a reference jiff evaluates progress in f64; an end point strictly inside (|end - reference| + 4 unit windows) * 2^-50 of a decision point may go to either neighbour; exact boundaries and exact ties are judged strictly; half-even ties accept either neighbour",
+            "stated tolerance: for smallest >= day with a zoned reference (>= week with a civil one) jiff evaluates progress in f64; an end point strictly inside (|end - reference| + 4 unit windows) * 2^-50 of a decision point may go to either neighbour; exact boundaries and exact ties are judged strictly; half-even ties accept either neighbour",
             "total: relative error <= 2^-44 plus 1e-9 absolute; integer counts below 2^52 exactly",
             "errors are judged only when the options are invalid (must be Err) or nothing is anywhere near a limit (must be Ok)",
         ],
@@ -1090,6 +1151,7 @@ pub fn property() -> Property {
             rec.floor("c11.round:round: zoned reference or end within 2 days of a transition", "c11.round:cases", 0.10);
             rec.floor("c11.round:round: increment > 1", "c11.round:cases", 0.20);
             rec.floor("c11.round:round: uniform units, compared exactly", "c11.round:cases", 0.05);
+            rec.floor("c11.round:round: end point exactly half way to a neighbouring multiple", "c11.round:cases", 0.01);
             rec.floor("c11.total:total: calendar unit (window by search)", "c11.total:cases", 0.10);
             rec.floor("c11.compare:compare: equal end points from different fields", "c11.compare:cases", 0.01);
         },
